@@ -20,7 +20,7 @@ from hxsim.stepclock import SimAbort, SimTimeout, StepBudgetExceeded, StepClock
 
 PROPERTY = 'C02'
 STREAMS = {
-    'history': {'quick': 6000, 'thorough': 200000, 'chunk': 150},
+    'history': {'quick': 5000, 'thorough': 200000, 'chunk': 150},
     'hostlists': {'quick': 2500, 'thorough': 40000, 'chunk': 100},   # H3 slice: host lists into every function
     # an asynchronous interrupt at EVERY step of an evaluation in turn, probes judged after each
     'intsweep': {'quick': 100, 'thorough': 2500, 'chunk': 4, 'selftest_max': 6},
@@ -30,7 +30,7 @@ STREAMS = {
     'rebind': {'quick': 2000, 'thorough': 100000, 'chunk': 100},
     # ten evaluations of ONE built-in (walking the registry) with arguments by parameter name, each judged against
     # a pristine process: state a function keeps for itself at module level
-    'fnhistory': {'quick': 1600, 'thorough': 60000, 'chunk': 60},
+    'fnhistory': {'quick': 1100, 'thorough': 60000, 'chunk': 60},
 }
 
 CLOCKS = ['2024-02-29T13:14:15.161718', '2024-02-29T23:59:59.999999', '2024-03-01T00:00:00', '1900-01-01T00:00:00',
